@@ -50,10 +50,19 @@ func vGenStream(kinds []int, hdrCRC bool) *vStreamInfo {
 		s.hdr = 14
 	}
 	var body bytes.Buffer
-	// local 0: file_id: type(enum) manufacturer(uint16)
-	body.Write([]byte{0x40, 0, 0, 0, 0, 2, 0, 1, 0x00, 1, 2, 0x84})
+	// local 0: file_id: type(enum) manufacturer(uint16); in streams with a
+	// 12-byte header the definition is big-endian and also carries
+	// product(uint16), so that both shapes of the first record occur
 	manu := []byte{vByte(), vByte()}
-	body.Write([]byte{0x00, 4, manu[0], manu[1]})
+	fileID := []byte{4, manu[0], manu[1]}
+	if hdrCRC {
+		body.Write([]byte{0x40, 0, 0, 0, 0, 2, 0, 1, 0x00, 1, 2, 0x84})
+	} else {
+		body.Write([]byte{0x40, 0, 1, 0, 0, 3, 0, 1, 0x00, 1, 2, 0x84, 2, 2, 0x84})
+		fileID = append(fileID, vByte(), vByte())
+	}
+	body.WriteByte(0x00)
+	body.Write(fileID)
 	s.fileIDEnd = s.hdr + body.Len()
 	// an unknown message number and an unlisted record field number
 	s.unkMsgNum = MesgNum(0xFF00 | uint16(vByte()&0x7F))
@@ -102,7 +111,8 @@ func vGenStream(kinds []int, hdrCRC bool) *vStreamInfo {
 			s.nUnkMsg++
 		case vKindCompFileId:
 			// a second file_id record (same content) under a compressed header
-			body.Write([]byte{0x80 | 0<<5 | vByte()&0x1F, 4, manu[0], manu[1]})
+			body.WriteByte(0x80 | 0<<5 | vByte()&0x1F)
+			body.Write(fileID)
 		case vKindCompressed:
 			// local 1 is 0..3-addressable: compressed header, local type 1, offset arbitrary
 			body.Write([]byte{0x80 | 1<<5 | vByte()&0x1F, vByte()})
